@@ -200,7 +200,7 @@ def rule_r3(ctx):
 def rule_r4(ctx):
     rep = ctx.report
     n = 0
-    for cls in K.family(ctx, ):
+    for cls in ctx.repo.dataset_family(include_base=True):
         for name, mem in cls.members.items():
             if mem.kind != 'attr':
                 continue
